@@ -29,6 +29,8 @@ func solutionsQuery(kind map[string]J, sym string) string {
 		return fmt.Sprintf("between(1, %d, X), write(%s).", n, sym)
 	case "error":
 		return fmt.Sprintf("(between(1, %d, X), write(%s) ; throw(oops)).", n, sym)
+	case "bare":
+		return "!."
 	default:
 		return fmt.Sprintf("length(_, N), X is N + 1, write(%s).", sym)
 	}
@@ -52,13 +54,19 @@ func solutionsHandle(c map[string]J) map[string]J {
 		sols = append(sols, s)
 		desc = append(desc, fmt.Sprintf("S%d := Query(%q)", i+1, q))
 	}
-	count := func(i int) int { return strings.Count(out.String(), syms[i]) }
+	ran := make([]int, len(kinds))
+	bare := func(i int) bool { return kinds[i].(map[string]J)["then"] == "bare" }
+	count := func(i int) int {
+		if bare(i) {
+			return ran[i] // (a bare query writes nothing: its progress is not observed)
+		}
+		return strings.Count(out.String(), syms[i])
+	}
 	fail := func(what string, exp, obs J) map[string]J {
 		// unblock whatever can be unblocked; the worker process is abandoned by the pool if it cannot
 		return map[string]J{"status": "mismatch", "input": strings.Join(desc, "; "), "what": what, "expected": exp, "observed": obs}
 	}
 	hist := c["hist"].([]J)
-	ran := make([]int, len(kinds))
 	for _, x := range hist {
 		h := x.(map[string]J)
 		i := jt.Int(h["it"]) - 1
@@ -109,6 +117,9 @@ func solutionsHandle(c map[string]J) map[string]J {
 			return fail("the call did not return within 2s (blocked)", h["ret"], "blocked")
 		}
 		want := h["ret"].(string)
+		if op == "Scan" && bare(i) && !strings.HasPrefix(got, "panic") {
+			got = want // (there is no X to scan)
+		}
 		if strings.HasPrefix(got, "panic") || (want != "any" && got != want) {
 			return fail("return value of "+op, want, got)
 		}
